@@ -147,7 +147,18 @@ func (g *IG) loopFormAt(z *Polyizer, b *ssa.BasicBlock) (*LoopForm, bool) {
 			lf.Trips, lf.TripsOK = d0, true
 		case k < 0 && f.Op != token.NEQ:
 			// stay while d0 - s*T > 0: ceil(d0/s) iterations
-			if sh, ok := log2(uint64(-k)); ok {
+			step := -k
+			divisible := len(d0) > 0
+			q := Poly{}
+			for mono, cf := range d0 {
+				if cf%step != 0 {
+					divisible = false
+				}
+				q[mono] = cf / step
+			}
+			if divisible {
+				lf.Trips, lf.TripsOK = q, true // d0 is a multiple of the step
+			} else if sh, ok := log2(uint64(step)); ok {
 				lf.Trips, lf.TripsOK = pCdiv(sh, d0), true
 			}
 		}
